@@ -262,8 +262,9 @@ def _replay_chunk(edge_ids):
     queries = 0
     tainted = 0
     for item in edge_ids:
-        # item = edge index, or (self-loop edge, following edge): BFS-tree paths never contain an edge that leaves
-        # the abstract state unchanged (a repeated register_proxy_cap), so it is replayed first
+        # item = edge index, or (f, e) with f a NON-TREE edge into src(e) (a merging history or a self-loop such as a
+        # repeated register_proxy_cap): replayed as path_to(src f) + f + e, so that hidden state left behind by the
+        # history through f meets the next action e
         pre = []
         if isinstance(item, tuple):
             pre, ei = [g.edges[item[0]]], item[1]
@@ -273,7 +274,7 @@ def _replay_chunk(edge_ids):
         w = World(_NR, _IDS)
         hist = []
         bad = []
-        for pe in g.path_to(e["_s"]) + pre:
+        for pe in g.path_to(pre[0]["_s"] if pre else e["_s"]) + pre:
             bad += w.step(pe["act"], pe["out"], final=False)
             hist.append(pe["act"])
         bad += w.step(e["act"], e["out"], final=True)
@@ -301,7 +302,7 @@ def _cfg(spec, consts, invs=(), view=False):
             + "".join("INVARIANT %s\n" % i for i in invs) + ("VIEW View\n" if view else ""))
 
 
-def _b1(chk: Check, consts, label):
+def _b1(chk: Check, consts, label, pair_cap):
     global _G, _NR, _IDS
     common.model_check(chk, "Caps_MC", _cfg("Spec", consts, INVS), "Caps " + label)
     recs = common.export_records(chk, "Caps_MBT", _cfg("MSpec", consts, view=True), "Caps_MBT " + label)
@@ -317,9 +318,9 @@ def _b1(chk: Check, consts, label):
     if len(g.edges) < 100:
         raise common.MachineryError("Caps_MBT exported only %d edges" % len(g.edges))
     _G, _NR, _IDS = g, consts["NR"], make_ids(chk.rng, consts["NR"])
-    pairs = g.selfloop_pairs()
+    pairs = g.merge_pairs(pair_cap)
     ids = g.reachable_edges() + pairs
-    chk.cov["b1_selfloop_pairs_replayed"] = chk.cov.get("b1_selfloop_pairs_replayed", 0) + len(pairs)
+    chk.cov["b1_merge_pairs_replayed"] = chk.cov.get("b1_merge_pairs_replayed", 0) + len(pairs)
     World(consts["NR"], _IDS)       # import the implementation once, before forking
     gc.collect()
     gc.freeze()                     # the exported graph is shared read-only with the workers
@@ -377,16 +378,16 @@ def run(chk: Check):
         "the shorter of two prefix-related URLs is never a one-shot cap",
     ]
     if chk.tier == "quick":
-        _b1(chk, dict(NR=2, MaxSeed=2, MaxTemp=2, Grants="1,2,3,4,5,6,7", Depth=5), "2r-d5")
+        _b1(chk, dict(NR=2, MaxSeed=2, MaxTemp=2, Grants="1,2,3,4,5,6,7", Depth=5), "2r-d5", 6000)
         # two sessions, asset URL shared across sessions (no one-shot caps)
-        _b1(chk, dict(NR=3, MaxSeed=2, MaxTemp=0, Grants="1,5,6", Depth=5), "3r-d5-small")
+        _b1(chk, dict(NR=3, MaxSeed=2, MaxTemp=0, Grants="1,5,6", Depth=5), "3r-d5-small", 2000)
         # long grant histories of ONE name in one region: re-grants of an earlier URL (a c a, a c a c, a ax a ..)
-        _b1(chk, dict(NR=1, MaxSeed=4, MaxTemp=0, Grants="1,2,8", Depth=9), "1r-regrant-d9")
+        _b1(chk, dict(NR=1, MaxSeed=4, MaxTemp=0, Grants="1,2,8", Depth=9), "1r-regrant-d9", 1500)
         _algo(chk, dict(NR=2, MaxSeed=2, MaxTemp=1, Grants="1,3", Depth=5), "2r-d5-small")
     else:
-        _b1(chk, dict(NR=3, MaxSeed=2, MaxTemp=1, Grants="1,2,3,4,5,6,7", Depth=5), "3r-d5")
-        _b1(chk, dict(NR=2, MaxSeed=3, MaxTemp=2, Grants="1,2,3,4,5,6,7,8", Depth=6), "2r-d6")
-        _b1(chk, dict(NR=1, MaxSeed=5, MaxTemp=0, Grants="1,2,3,8", Depth=11), "1r-regrant-d11")
-        _algo(chk, dict(NR=2, MaxSeed=2, MaxTemp=1, Grants="1,2,3,4,5,6,7,8", Depth=5), "2r-d5")
+        _b1(chk, dict(NR=3, MaxSeed=2, MaxTemp=1, Grants="1,2,3,4,5,6,7", Depth=5), "3r-d5", 20000)
+        _b1(chk, dict(NR=2, MaxSeed=3, MaxTemp=2, Grants="1,2,3,4,5,6,7,8", Depth=6), "2r-d6", 30000)
+        _b1(chk, dict(NR=1, MaxSeed=5, MaxTemp=0, Grants="1,2,3,8", Depth=11), "1r-regrant-d11", 10000)
+        _algo(chk, dict(NR=2, MaxSeed=2, MaxTemp=1, Grants="1,2,3,4,5,6,7,8", Depth=5), "2r-d5", 6000)
         _algo(chk, dict(NR=1, MaxSeed=4, MaxTemp=0, Grants="1,2,8", Depth=9), "1r-regrant-d9")
     chk.cov["exhaustive"] = True
